@@ -443,48 +443,33 @@ theorem CInv_cleanupContexts (s : BSt) (hs : CInv s) : CInv (cleanupContexts s) 
 theorem CInv_allEmpty (s : BSt) (hs : CInv s) : CInv (allEmpty s).1 := by
   unfold CInv; rw [core_allEmpty]; exact CI.refresh hs
 
-/-- `cleanupLoggers` touches the core only through the cache refresh of its emptiness checks -/
-theorem cleanupLoggers_pres (P : BSt → Prop) (hAll : ∀ x, P x → P (allEmpty x).1)
-    (hcore : ∀ x y, P x → core y = core x → P y) (s : BSt) (hs : P s) : P (cleanupLoggers s) := by
-  unfold cleanupLoggers
-  split
-  · exact hs
-  · simp only []
-    have h0 : P { s with hasInvalidLoggers := false } := hcore s _ hs rfl
-    generalize insSorted _ ((List.range ({ s with hasInvalidLoggers := false } : BSt).lgs.length).filter _) = order
-    have hfold : ∀ (l : List Nat) (acc : BSt × List Nat), P acc.1 →
-        P (l.foldl (fun (acc : BSt × List Nat) i =>
-          if (acc.1.lgOf i).valid then acc else
-          if (allEmpty acc.1).2 then
-            (reapSinks ((allEmpty acc.1).1.setLg i (fun l => { l with erased := true })) (acc.1.lgOf i).sinks,
-              acc.2 ++ [(acc.1.lgOf i).gid])
-          else ({ (allEmpty acc.1).1 with hasInvalidLoggers := true }, acc.2)) acc).1 := by
-      intro l
-      induction l with
-      | nil => intro acc h; exact h
-      | cons i rest ih =>
-        intro acc h
-        simp only [List.foldl_cons]
-        apply ih
-        split
-        · exact h
-        · split
-          · exact hcore _ _ (hAll _ h) (by rw [reapSinks_core]; rfl)
-          · exact hcore _ _ (hAll _ h) rfl
-    have h1 := hfold order ({ s with hasInvalidLoggers := false }, []) h0
-    revert h1
-    generalize order.foldl _ ({ s with hasInvalidLoggers := false }, ([] : List Nat)) = res
-    intro h1
-    obtain ⟨s1, removed⟩ := res
-    simp only []
-    apply foldl_pres P _ _ _ _ h1
-    intro x gid hx
-    split
-    · exact hcore _ _ hx rfl
-    · exact hx
+/-- the state without what the logger clean-up writes besides the cache refresh -/
+def stripL (s : BSt) : BSt :=
+  { s with sinks := [], out := [], log := [], lgs := [], hasInvalidLoggers := false, flags := [], flagLog := [],
+           removalFlags := [], siteCnt := [] }
 
-theorem CInv_cleanupLoggers (s : BSt) (hs : CInv s) : CInv (cleanupLoggers s) :=
-  cleanupLoggers_pres CInv CInv_allEmpty (fun _ _ hx h => CInv_of_core h hx) s hs
+/-- with nothing injected at hook site 9, `cleanupLoggers` touches the rest of the state only through the
+    emptiness checks -/
+theorem cleanupLoggers_presL (P : BSt → Prop) (inj : BSt → Nat → BSt) (hq : Quiet9 inj)
+    (hAll : ∀ x, P x → P (allEmpty x).1) (hfr : ∀ x y, P x → stripL y = stripL x → P y) (s : BSt) (hs : P s) :
+    P (cleanupLoggers inj s) := by
+  apply cleanupLoggers_steps P inj _ _ hAll _ _ _ s hs
+  · intro x hx
+    obtain ⟨sc, h⟩ := hq x
+    rw [h]; exact hfr x _ hx rfl
+  · intro x b hx; exact hfr x _ hx rfl
+  · intro x i hx _ _; exact hfr _ _ (hAll x hx) rfl
+  · intro x sid hx _ _; exact hfr x _ hx rfl
+  · intro x f g hx; exact hfr x _ hx rfl
+
+/-- the same, for properties that read only the core -/
+theorem cleanupLoggers_pres (P : BSt → Prop) (inj : BSt → Nat → BSt) (hq : Quiet9 inj)
+    (hAll : ∀ x, P x → P (allEmpty x).1) (hcore : ∀ x y, P x → core y = core x → P y) (s : BSt) (hs : P s) :
+    P (cleanupLoggers inj s) :=
+  cleanupLoggers_presL P inj hq hAll (fun x y hx h => hcore x y hx (by
+    have h1 : core (stripL y) = core y := rfl
+    have h2 : core (stripL x) = core x := rfl
+    rw [← h1, h, h2])) s hs
 
 theorem core_readPrepSt (s : BSt) (i : Nat) : core (readPrepSt s i) = core s := by
   unfold readPrepSt; simp only [core_setTh, implies_true]
@@ -523,7 +508,10 @@ theorem CInv_closed : Closed CInv where
   allEmpty := CInv_allEmpty
   hasPending := fun s h => by unfold CInv; rw [core_hasPending]; exact CI.refresh h
   cleanupContexts := CInv_cleanupContexts
-  cleanupLoggers := CInv_cleanupLoggers
+  invFlag := fun _ _ h => h
+  erase := fun s i h _ _ => CInv_of_core rfl (CInv_allEmpty s h)
+  reap := fun _ _ h _ _ => h
+  flagRemoval := fun _ _ _ h => h
   flushSinks := fun s h => CInv_of_core (core_of_stripOut (flushSinks_strip s)) h
   readPrep := fun s i h => CInv_of_core (core_readPrepSt s i) h
   commit := fun s i h => CInv_of_core (core_commitSt s i) h
